@@ -16,10 +16,48 @@ from harness import zoo
 EPS = np.finfo(np.float64).eps
 
 
+@eqx.filter_jit
+def _jac_jit(b, x, c):
+    # the bijection is an argument, so the Jacobian is compiled once per bijection, not once per point
+    return jax.jacobian(lambda v: b.transform(v, c))(x)
+
+
+@eqx.filter_jit
+def _jac_inv_jit(b, y, c):
+    return jax.jacobian(lambda v: b.inverse(v, c))(y)
+
+
+@eqx.filter_jit
+def _grad_x_jit(d, x, c):
+    return jax.grad(lambda v: d.log_prob(v, c))(x)
+
+
+@eqx.filter_jit
+def _grad_p_jit(params, static, x, c):
+    return eqx.filter_grad(lambda pp: eqx.combine(pp, static).log_prob(x, c))(params)
+
+
 def _jac(b, x, c):
     n = int(np.prod(x.shape)) if x.shape else 1
-    J = jax.jacobian(lambda v: b.transform(v, c))(x)
+    J = _jac_jit(b, jnp.asarray(x, dtype=float), c)
     return np.asarray(J).reshape(n, n)
+
+
+def _jac_inv(b, y, c):
+    n = int(np.prod(y.shape)) if y.shape else 1
+    J = _jac_inv_jit(b, jnp.asarray(y, dtype=float), c)
+    return np.asarray(J).reshape(n, n)
+
+
+def _jac_robust(b, x, y, c, bisect):
+    """Jacobian of transform at x.  When transform itself runs the bisection inverter (a block network in the inverted
+    orientation) autodiff through the search returns zeros; the Jacobian is then the inverse of the explicit direction's."""
+    J = _jac(b, x, c)
+    if bisect and not np.any(J):
+        Ji = _jac_inv(b, y, c)
+        if np.all(np.isfinite(Ji)) and abs(np.linalg.det(Ji)) > 0:
+            return np.linalg.inv(Ji)
+    return J
 
 
 def _cond(J):
@@ -70,7 +108,7 @@ def case_c01(rep, spec):
             rep.count(1)
             continue
         try:
-            J = _jac(b, x, c)
+            J = _jac_robust(b, x, y, c, z["bisect"])
             kap = _cond(J)
             xb = b.inverse(y, c)
             xb2, _ = b.inverse_and_log_det(y, c)
@@ -99,7 +137,7 @@ def case_c01(rep, spec):
         try:
             xi = b.inverse(x, c)
             if np.all(np.isfinite(np.asarray(xi))):
-                Ji = _jac(b, xi, c)
+                Ji = _jac_robust(b, xi, x, c, z["bisect"])
                 ki = _cond(Ji)
                 yy = np.asarray(b.transform(xi, c))
                 sc2 = 1 + np.abs(xn).max() + np.abs(np.asarray(xi)).max()
@@ -116,8 +154,14 @@ def case_c01(rep, spec):
 
 
 # ---------------------------------------------------------------------------------------------------------------
-def _slogdet(b, x, c):
-    J = _jac(b, jnp.asarray(x), c)
+def _slogdet(b, x, c, bisect=False):
+    x = jnp.asarray(x)
+    J = _jac(b, x, c)
+    if bisect and not np.any(J):          # transform runs the bisection search: differentiate the explicit direction instead
+        y = b.transform(x, c)
+        Ji = _jac_inv(b, y, c)
+        s, l = np.linalg.slogdet(Ji)
+        return -float(l), _cond(Ji)
     s, l = np.linalg.slogdet(J)
     return float(l), _cond(J)
 
@@ -168,9 +212,9 @@ def case_c02(rep, spec):
         ld = float(ld)
         try:
             if p.get("kink") and "sides" in p:
-                refs = [_slogdet(b, s, c) for s in p["sides"]]
+                refs = [_slogdet(b, s, c, z["bisect"]) for s in p["sides"]]
             else:
-                refs = [_slogdet(b, x, c)]
+                refs = [_slogdet(b, x, c, z["bisect"])]
         except Exception as e:  # noqa: BLE001
             rep.violation({**key, "what": "autodiff of transform raises", "error": type(e).__name__}, f"{z['name']}: {type(e).__name__}: {str(e)[:200]}")
             continue
@@ -179,6 +223,8 @@ def case_c02(rep, spec):
             rep.count(1)
             continue
         tol = 1e-8 * (1 + abs(ld)) + 1e3 * EPS * kap
+        if z["bisect"]:          # the point the log-det is taken at is only known to the search tolerance (1e-7)
+            tol += 1e-5 * (1 + abs(ld))
         nontriv = (z["name"], p["tag"][:24]) if abs(refs[0][0]) > 1e-9 else None
         rep.count(1, nontriv)
         ok = any(abs(ld - r[0]) <= tol for r in refs)
@@ -253,8 +299,8 @@ def case_c18(rep, spec):
                 rep.count(1, (z["name"], oname, "value", p["tag"][:20]))
                 continue
             try:
-                gx = np.asarray(jax.grad(lambda v: d.log_prob(v, c))(x))
-                gp = eqx.filter_grad(lambda pp: eqx.combine(pp, static).log_prob(x, c))(params)
+                gx = np.asarray(_grad_x_jit(d, x, c))
+                gp = _grad_p_jit(params, static, x, c)
                 gleaves = [np.asarray(g) for g in jax.tree_util.tree_leaves(gp)]
             except Exception as e:  # noqa: BLE001
                 rep.violation({**key, "what": "gradient raises", "error": type(e).__name__}, f"{z['name']} [{oname}]: {type(e).__name__}: {str(e)[:200]}")
